@@ -160,6 +160,32 @@ def main() -> int:
                 spec_failures.append({"suite": "strict-unsupported", "script": withu, "result": strict,
                                       "spec": "without silent mode an unsupported statement raises UnsupportedStatementException"})
     dist["silent_mode_cases"] = n_silent
+    # ---- the outcome is a function of (text, dialect, options): not of what was analysed before in this process -----
+    def outcome(sql, d, cfg=None):
+        try:
+            return t2tie._summary_only({"sql": sql, "dialect": d, "config": cfg or {}})
+        except BaseException as e:
+            return "ESC:" + type(e).__name__
+    tsql_texts = [x["sql"] for x in recs if x["dialect"] == "tsql"]
+    tsql_texts = r.sample(tsql_texts, min(len(tsql_texts), 25 if quick else 200)) + \
+        ["SELECT a, b INTO staging FROM dbo.orders WITH (NOLOCK)", "select top 5 a from t", "insert into x select a from t with (nolock)",
+         "select a from t option (maxdop 1)"]
+    others = ["ansi", "mysql", "postgres"]
+    before = {(t, d): outcome(t, d) for t in tsql_texts for d in others}
+    for t in tsql_texts:
+        outcome(t, "tsql", {"TSQL_NO_SEMICOLON": True})
+        outcome(t + "\n" + t, "tsql", {"TSQL_NO_SEMICOLON": True})
+        outcome(t, "tsql")
+    n_hist = 0
+    for (t, d), b in before.items():
+        ck.count()
+        n_hist += 1
+        a = outcome(t, d)
+        if a != b:
+            spec_failures.append({"suite": "history-independence", "dialect": d, "text": t, "outcome_first": b,
+                                  "outcome_after_tsql_runs": a, "earlier": "the same text analysed under tsql with and without TSQL_NO_SEMICOLON",
+                                  "spec": "text the dialect's parser cannot parse is reported as invalid syntax, whatever was analysed earlier in the process"})
+    dist["history_independence_cases"] = n_hist
     for kid, case in known_hits.items():
         ck.known(kid, known[kid]["what"] + " (e.g. dialect=%s %r)" % (case["dialect"], case["text"][:120]))
     ck.sample({"text": cases[7][0][:200], "dialect": cases[7][1], "outcome": out[7]})
@@ -169,7 +195,7 @@ def main() -> int:
                 "the error contract was evaluated on every case of the malformed stream under the listed dialects; no failing input")
     return ck.finish(rule="corpus and generated statements under token deletion / duplication / swap / insertion (SQL keywords, brackets, quotes, templating "
                           "metacharacters) / bracket nesting up to 30 / cross-over, 1-2 mutations each, x 20 dialects x silent mode; dialect-specific statements; "
-                          "silent mode x insertion position of unsupported statements; non-trivial = distinct case that reached an extractor")
+                          "silent mode x insertion position of unsupported statements; tsql texts under other dialects before and after tsql runs; non-trivial = distinct case that reached an extractor")
 
 
 if __name__ == "__main__":
